@@ -100,6 +100,12 @@ func c19Generate(r *core.Run) []c19Exchange {
 	// never answered: 504 after the designed 30 s wait (run in parallel with everything else)
 	add("GET", 0, 1024, false)
 	add("POST", 1000001, 1024, false)
+	if !r.Quick() {
+		// more than 11 overflow parts (names ...part10, part11 sort before ...part2): legal, App Engine takes 32 MB.
+		// Started first; the quick tier and the 25 MB size cover this at the store level only.
+		add("POST", 11000001, 12345678, true)
+		add("PUT", 12345678, 11000001, true)
+	}
 	// every request size x every response size
 	for _, rq := range c19Sizes {
 		for _, rs := range c19Sizes {
@@ -115,12 +121,7 @@ func c19Generate(r *core.Run) []c19Exchange {
 		exs[len(exs)-1].Status = 200
 		exs[len(exs)-1].CacheControl = len(exs)%2 == 0
 	}
-	// more than 11 overflow parts (names ...part10, part11 sort before ...part2): legal, App Engine takes 32 MB
 	if !r.Quick() {
-		add("POST", 11000001, 12345678, true)
-		add("PUT", 12345678, 11000001, true)
-		add("POST", 25000000, 1024, true)
-		add("GET", 0, 25000000, true)
 		for len(exs) < 2400 {
 			rq, rs := 200+rng.Intn(60000), 200+rng.Intn(60000)
 			if rng.Intn(100) < 15 {
@@ -287,7 +288,7 @@ func C19(r *core.Run) {
 			"nth": []int{1, 2}, "timeouts": true, "workers": 16}
 	}
 	const T = 45000
-	spec := map[string]interface{}{"mode": "c19", "t_ms": T, "conc": r.Pick(8, 16), "backends": c19Backends, "exchanges": exs, "chains": chains, "blobs": blobs, "blob_big_all_stacks": !r.Quick(), "faults": faults}
+	spec := map[string]interface{}{"mode": "c19", "t_ms": T, "conc": r.Pick(8, 16), "backends": c19Backends, "exchanges": exs, "chains": chains, "blobs": blobs, "faults": faults}
 	// Megabyte payloads under the race detector are dominated by shadow-memory page faults; fewer GC cycles and,
 	// in the quick tier, fewer threads contending in the kernel keep the wall time steady on a busy machine.
 	env := []string{"GOGC=400"}
